@@ -1,1 +1,13 @@
 import ThriftVerif.Props.C16
+#print axioms Props.C16.fuel_suffices
+#print axioms Props.C16.mark_sound
+#print axioms Props.C16.mark_exact
+#print axioms Props.C16.always_kept
+#print axioms Props.C16.kept_bodies_unchanged
+#print axioms Props.C16.kept_refs_kept
+#print axioms Props.C16.services_nofilter
+#print axioms Props.C16.consts_typedefs_reachable
+#print axioms Props.C16.method_filter
+#print axioms Props.C16.trim_resolves_partial
+#print axioms Props.C16.base_service_dropped
+#print axioms Props.C16.not_idempotent_with_methods
